@@ -42,11 +42,47 @@ struct C07 : Harness {
                 int nblk = *rc::gen::weightedOneOf<int>({{8, irange(0, 40)}, {1, irange(41, 200)}});
                 size_t n = (size_t)nblk * bs;
                 Op e = mkop(opn(kind, kind == PM ? "crypt" : (*chance(50) ? "enc" : "dec")));
-                e.set("s", 0).set("in", *gdata(n));
-                if (kind == PM) e.set("tweak", *gdata(n)).set("to", *goffset());
+                e.set("s", 0).set("in", *gblocks(n, (size_t)bs));
+                if (kind == PM) e.set("tweak", *gblocks(n, 8)).set("to", *goffset());
                 if (*chance(35)) e.set("ip", 1).set("io", *goffset()); else e.set("io", *goffset()).set("oo", *goffset());
                 p.push_back(e);
                 if (kind == PM && *chance(25)) p.push_back(mkop("pm.swap").set("s", 0));
+            }
+            // bystanders: one to three other objects of the same kind live their own lives around the object under test
+            // (created before or after it, cleaned up in any order, re-initialised).  What the object under test computes
+            // must not depend on them: contexts handed out from a shared pool, a registry of live objects, a cache keyed
+            // on the wrong thing would show here.  Ops of bystanders carry by=1.
+            if (*chance(25)) {
+                int nby = *irange(1, 3);
+                Program w;
+                w.push_back(p[0]);
+                for (int b = 0; b < nby; ++b) w.push_back(mkop(std::string("new.") + kname(kind)).set("by", 1).set("fill", *rc::gen::element(0, 0xA5)));
+                std::vector<int> state(nby, 0);   // 0 not live, 1 live, 2 keyed
+                auto by_step = [&](int b) {
+                    int sl = b + 1;
+                    if (state[b] == 0) { w.push_back(mkop(opn(kind, "init")).set("s", sl).set("by", 1).set("be", *rc::gen::elementOf(bes))); state[b] = 1; }
+                    else if (state[b] == 1 || *chance(30)) {
+                        Op kk = mkop(opn(kind, "set_key")); kk.set("s", sl).set("by", 1);
+                        if (kind == PM) kk.set("key", *gbytes(16)).set("len", 16).set("rounds", *irange(5, 8)).set("mode", *irange(0, 1));
+                        else { int len = bs * *irange(1, 3); kk.set("key", *gbytes(len)).set("len", len); }
+                        w.push_back(kk); state[b] = 2;
+                    } else if (*chance(35)) { w.push_back(mkop(opn(kind, "cleanup")).set("s", sl).set("by", 1)); state[b] = 0; }
+                    else {
+                        size_t n = (size_t)bs * (size_t)*irange(1, 20);
+                        Op e = mkop(opn(kind, kind == PM ? "crypt" : (*chance(50) ? "enc" : "dec")));
+                        e.set("s", sl).set("by", 1).set("in", *gdata(n));
+                        if (kind == PM) e.set("tweak", *gdata(n));
+                        w.push_back(e);
+                    }
+                };
+                for (size_t i = 1; i < p.size(); ++i) {
+                    int k = *irange(0, 3);
+                    for (int j = 0; j < k; ++j) by_step(*irange(0, nby - 1));
+                    w.push_back(p[i]);
+                }
+                int k = *irange(0, 2);
+                for (int j = 0; j < k; ++j) by_step(*irange(0, nby - 1));
+                p = w;
             }
             return p;
         });
@@ -64,6 +100,7 @@ struct C07 : Harness {
         span.assign(p.size(), {0, 0});
         for (size_t i = 0; i < p.size(); ++i) {
             const Op &op = p[i];
+            if (op.geti("by")) continue;
             std::string fn = op.name.substr(op.name.find('.') + 1);
             if (fn == "set_key") {
                 Op k = mkop(opn(skind, "set_key")); k.set("s", 0).set("key", *op.getb("key")).set("len", op.geti("len"));
@@ -87,6 +124,7 @@ struct C07 : Harness {
         for (size_t i = 0; i < p.size(); ++i) {
             std::string where = "op #" + std::to_string(i) + " [" + ser(p[i]).substr(0, 160) + "]: ";
             if (!t[i].err.empty()) return where + "monitor: " + t[i].err;
+            if (p[i].geti("by")) continue;   // (bystanders are judged by the API model below)
             if (span[i].second == span[i].first && !p[i].has("in")) {
                 if (p[i].name.find(".init") != std::string::npos) {
                     size_t pp = t[i].pub.find('p');
@@ -110,11 +148,13 @@ struct C07 : Harness {
         std::string d = cmp_model(p, t, m.run(p), false);
         if (!d.empty()) return d;
         if (!st.shrinking) {
-            int be = t[1].be;
+            int be = -1; bool bystanders = false;
+            for (size_t i = 0; i < p.size(); ++i) { if (p[i].geti("by")) bystanders = true; else if (be < 0 && p[i].name.find(".init") != std::string::npos) be = t[i].be; }
+            if (bystanders) st.count("with-bystander-objects");
             size_t batch = be == 256 ? 8 : be == 128 ? (kind == P128 ? 4 : 8) : 1;
             bool nt = false;
             std::string kb = std::string(kname(kind)) + "/be" + std::to_string(be);
-            for (auto &op : p) if (op.has("in")) {
+            for (auto &op : p) if (op.has("in") && !op.geti("by")) {
                 size_t nb = op.getb("in")->size() / bs;
                 st.count("blocks=" + std::to_string(nb));
                 if (nb > batch && nb % batch != 0 && batch > 1) nt = true;
